@@ -58,6 +58,10 @@ def content(key, size, gen=0, seed=None, mode="rand"):
         blk = h.digest(BLOCK).translate(_TR)
         return (blk * (size // BLOCK + 1))[:size]
     data = h.digest(size).translate(_TR)
+    if mode in ("ztail", "zhead", "zmid"):      # a run of 64 KiB (or more) of zero bytes at the end / start / in the middle
+        run = min(size, 65536 if size < 4 * 65536 else 2 * 65536)
+        at = {"ztail": size - run, "zhead": 0, "zmid": ((size - run) // 2) // 65536 * 65536}[mode]
+        return data[:at] + bytes(run) + data[at + run:]
     if mode == "sparse":
         b = bytearray(data)
         for start in range(0, size, 3 * BLOCK):
